@@ -320,6 +320,16 @@ theorem reachable_runActs {n : Nat} {s s' : S} (as : List Act) (h : Reachable n 
     · rename_i s1 h1
       exact ih (Reachable.step a h h1) hr
 
+/-- the state after a concrete trace from `newManager n` (for examples and witnesses) -/
+def traceEnd (n : Nat) (as : List Act) : S := (runActs (init n) as).getD (init n)
+
+theorem reachable_traceEnd (n : Nat) (as : List Act) (h : (runActs (init n) as).isSome = true) :
+    Reachable n (traceEnd n as) := by
+  unfold traceEnd
+  cases hr : runActs (init n) as with
+  | none => simp [hr] at h
+  | some s' => exact reachable_runActs as .init hr
+
 /-! ## sequential executions (whole calls by one goroutine; used by the driver for T-diff) -/
 
 /-- the schedule a lone goroutine takes through `Pick`: always the only enabled non-environment
